@@ -494,6 +494,9 @@ def run(P, R, tier):
     from . import c13 as _c13
     _fns = _c13.scope(P)
     _c13.octet_value_blind(P, R, list(_fns) if not isinstance(_fns, dict) else list(_fns.values()), 'C12.GRD.5')
+    # the text is read back through the character table: every hex digit carries its own value there
+    from . import c13 as _c13h
+    _c13h.hex_table(P, R, 'C12.TAB.2')
     return EXPLANATION, ASSUMPTIONS
 
 
